@@ -28,12 +28,16 @@ pub struct Case {
     /// verification call, bit 2 a clone serialised
     #[serde(default)]
     pub pre: u8,
+    /// drop_after_exhausted_loop: the key is the hostile ML-DSA-44 key of C12 and message number `n` (on which the
+    /// signing loop runs to its limit) is signed through `&self` before the drop
+    #[serde(default)]
+    pub exhaust_msg: Option<u32>,
 }
 
 fn strategy() -> impl Strategy<Value = Case> {
     let prov = prop_oneof![Just(Provenance::Generated), Just(Provenance::Deserialised), Just(Provenance::Derived), Just(Provenance::Cloned)];
     (0u8..3, any::<bool>(), prov, gen::seed32(), proptest::option::of(gen::sk_spec()), proptest::option::of(gen::pk_spec()), any::<bool>(), proptest::bool::weighted(0.35), prop_oneof![3 => Just(0u8), 2 => 0u8..8])
-        .prop_map(|(set, private, prov, seed, structured_sk, structured_pk, misalign, boxed, pre)| Case { set, private, prov, seed, structured_sk, structured_pk, misalign, boxed, pre })
+        .prop_map(|(set, private, prov, seed, structured_sk, structured_pk, misalign, boxed, pre)| Case { set, private, prov, seed, structured_sk, structured_pk, misalign, boxed, pre, exhaust_msg: None })
 }
 
 pub fn check(c: &Case, st: &mut Stats) -> CheckResult {
@@ -51,7 +55,11 @@ pub fn check(c: &Case, st: &mut Stats) -> CheckResult {
         None
     };
     let xi = c.seed.bytes();
-    let probe = g("drop", || libr.drop_probe(private, c.prov, &xi, structured.as_deref(), c.misalign, c.boxed, c.pre))?;
+    let probe = g("drop", || libr.drop_probe(private, c.prov, &xi, structured.as_deref(), c.misalign, c.boxed, c.pre, None))?;
+    judge(c, &p, private, &probe, st)
+}
+
+fn judge(c: &Case, p: &crate::refmodel::Params, private: bool, probe: &Option<crate::libapi::DropProbe>, st: &mut Stats) -> CheckResult {
     let Some(pr) = probe else {
         st.class("skipped:bytes_rejected");
         return Ok(());
@@ -62,6 +70,19 @@ pub fn check(c: &Case, st: &mut Stats) -> CheckResult {
     st.class(&tag);
     if c.pre != 0 {
         st.class("object used before the drop (derive / sign or verify / serialise a clone)");
+    }
+    if pr.mutated != 0 {
+        st.class("calls through &self changed bytes of the object before the drop (interior state)");
+    }
+    // Bytes that a call through `&self` changed while the object sat in the observed storage are live state of the
+    // object (no padding is written that way): they are judged whatever the layout is, down to a single byte.
+    if pr.mutated_survivors != 0 {
+        let off = pr.first_mutated_survivor.unwrap_or(0);
+        fail!(
+            format!("not_erased:{kind}:interior_state"),
+            "{tag}: {} byte(s) that a call through &self had changed before the drop (object used in place: pre = {}, loop-exhausting signing call = {}) are still non-zero after it (first at offset {off} of {})",
+            pr.mutated_survivors, c.pre, c.exhaust_msg.is_some(), pr.size
+        );
     }
     st.class(if c.boxed { "placement:Box (observed by the allocator at dealloc)" } else if c.misalign { "placement:odd multiple of the alignment" } else { "placement:128-byte aligned" });
     // expected object size: no padding, every byte belongs to a field
@@ -107,12 +128,50 @@ pub fn check(c: &Case, st: &mut Stats) -> CheckResult {
     Ok(())
 }
 
+/// An object that has been through a signing call whose rejection loop ran to its limit (only an imported key with
+/// hostile t0 gets there, and only on searched messages): whatever the call left in the object is erased as well.
+pub fn check_exhausted(c: &Case, st: &mut Stats) -> CheckResult {
+    let libr = libs()[0];
+    let p = libr.p();
+    let key = super::c12::exhausting_key(&p);
+    let n = c.exhaust_msg.unwrap_or(1);
+    let m = super::c12::ex_msg(n);
+    let rnd = super::c12::ex_rnd(2);
+    // the call really ends in Err on this tree? (otherwise the case is an ordinary used-before-drop case)
+    let exhausted = matches!(g("sign", || libr.sk_from_bytes(&key).map(|sk| sk.sign(&mut TestRng::replay(&rnd), &m, &[1, 2, 3], Mode::Pure)))?, Ok(Err(_)));
+    st.class(if exhausted { "signing call before the drop returned Err (loop ran to its limit)" } else { "signing call before the drop returned Ok" });
+    let probe = g("drop", || libr.drop_probe(true, Provenance::Deserialised, &[0u8; 32], Some(&key), c.misalign, c.boxed, c.pre, Some((&m, rnd))))?;
+    judge(c, &p, true, &probe, st)
+}
+
+fn exhausted_cases(tries: u32, keep: usize) -> (Vec<Case>, usize) {
+    let hits = super::c12::exhausting_messages(2, tries);
+    let found = hits.len();
+    let mut v = Vec::new();
+    for n in hits.into_iter().take(keep) {
+        for (misalign, boxed) in [(false, false), (true, false), (false, true)] {
+            for pre in [0u8, 1] {
+                v.push(Case { set: 0, private: true, prov: Provenance::Deserialised, seed: Seed32::Zero, structured_sk: None, structured_pk: None, misalign, boxed, pre, exhaust_msg: Some(n) });
+            }
+        }
+    }
+    (v, found)
+}
+
 pub fn run(ctx: &Ctx, rep: &mut Report) {
     rep.assume("only the object's own storage is observed (heap slot, ManuallyDrop::drop in place, volatile reads); copies made elsewhere by moves or by into_bytes(self) are outside the property as stated");
     rep.assume("the object is moved into a buffer the harness owns (at a 128-byte boundary, or at an odd multiple of the type's alignment), dropped there with drop_in_place, and the buffer is read with volatile loads afterwards; the buffer outlives the object, so the read is defined behaviour");
+    rep.assume("operations before the drop are applied through &self to the object in the observed storage; bytes whose value they change are interior state (a correct implementation does not write non-zero padding through &self) and are judged down to one byte whatever the layout");
     run_generated(ctx, rep, "drop_probe", ctx.n(20_000, 400_000), strategy, check);
+    let (cases, found) = exhausted_cases(ctx.n(64, 512), ctx.n(2, 12) as usize);
+    rep.note(format!("drop_after_exhausted_loop: {found} messages found on which signing with the hostile ML-DSA-44 key of C12 runs the loop to its limit; each of the first {} is signed through &self on the object in the observed storage (3 placements, with / without get_public_key first), then the object is dropped", cases.len() / 6));
+    crate::engine::run_list(rep, "drop_after_exhausted_loop", &cases, check_exhausted);
 }
 
 pub fn replay(_ctx: &Ctx, sub: &str, case: &Value) -> Option<CheckResult> {
-    (sub == "drop_probe").then(|| check(&from_case::<Case>(case), &mut Stats::default()))
+    match sub {
+        "drop_probe" => Some(check(&from_case::<Case>(case), &mut Stats::default())),
+        "drop_after_exhausted_loop" => Some(check_exhausted(&from_case::<Case>(case), &mut Stats::default())),
+        _ => None,
+    }
 }
